@@ -23,6 +23,7 @@ import (
 	proto "github.com/kubewharf/kubebrain-client/api/v2rpc"
 
 	"github.com/kubewharf/kubebrain/pkg/metrics"
+	"github.com/kubewharf/kubebrain/pkg/verifhook"
 )
 
 const (
@@ -45,6 +46,7 @@ func (w *WatcherHub) AddWatcher(ctx context.Context) (<-chan []*proto.Event, err
 
 	// set watch buffer
 	sub := make(chan []*proto.Event, watchBuffer)
+	verifhook.Name("sub", sub)
 	if w.subs == nil {
 		w.subs = map[chan []*proto.Event]struct{}{}
 	}
@@ -60,6 +62,7 @@ func (w *WatcherHub) AddWatcher(ctx context.Context) (<-chan []*proto.Event, err
 
 // DeleteWatcher delete watcher
 func (w *WatcherHub) DeleteWatcher(sub chan []*proto.Event, lock bool) {
+	verifhook.Yield("hub.delete", sub, lock)
 	w.metricCli.EmitCounter("watcher_hub.delete_watcher", 1)
 	if lock {
 		w.Lock()
@@ -77,6 +80,7 @@ func (w *WatcherHub) DeleteWatcher(sub chan []*proto.Event, lock bool) {
 // Stream push events to watchers.
 func (w *WatcherHub) Stream(input chan []*proto.Event) {
 	for item := range input {
+		verifhook.Yield("hub.recv")
 		w.RLock()
 		for sub := range w.subs {
 			select {
